@@ -34,7 +34,7 @@ func genC08(dir, tier string, seed int64) {
 		maxRank, keep = 3, 1
 	}
 	raw := newCaseWriter(dir, "C08_ops", opHeader("CheckC08"), opFooter,
-		fmt.Sprintf("bounded-exhaustive: all data shapes of rank 1..%d with extents 1..3 x (Transpose: all permutations, a non-permutation, a too-short perm, default; Concat: every axis in [-r-1,r] with 1..3 inputs incl. one differing extent per axis; Gather: every axis in [-r-1,r], index tensors of shape (),(1),(2),(2,2),(1,3) with positive, negative and out-of-range indices; Expand: every target shape of rank 1..3; Slice: every axis in both spellings x all (start,end) in [-d-2,d+2]^2 x steps {1,2,3,-1} + INT64 extremes + all two-axis slices of rank-2 data); index-coded data, dtype round-robin; quick tier keeps a seeded 1/%d sample of the Slice sweep of rank 3 and of Expand", maxRank, keep), tier == "thorough", 1200)
+		fmt.Sprintf("bounded-exhaustive: all data shapes of rank 1..%d with extents 1..3 x (Transpose: all permutations, non-permutations (all zeros, a repeated entry, an entry r, r+1 or -1 at every position), a too-short and a too-long perm, default; Concat: every axis in [-r-1,r] with 1..3 inputs incl. one differing extent per axis; Gather: every axis in [-r-1,r], index tensors of shape (),(1),(2),(2,2),(1,3) with positive, negative and out-of-range indices; Expand: every target shape of rank 1..3; Slice: every axis in both spellings x all (start,end) in [-d-2,d+2]^2 x steps {1,2,3,-1} + INT64 extremes + all two-axis slices of rank-2 data); index-coded data, dtype round-robin; quick tier keeps a seeded 1/%d sample of the Slice sweep of rank 3 and of Expand", maxRank, keep), tier == "thorough", 1200)
 	cw := &opEmitter{cw: raw}
 	sel := func(rk int) bool { return rk <= 2 || keep == 1 || rnd.Intn(keep) == 0 }
 	f32t := func(s []int) tensor.Tensor { return mkT(dtypes[cw.k%14], s, iota64(numel(s), 100)) }
@@ -52,6 +52,21 @@ func genC08(dir, tier string, seed int64) {
 			cw.emit("Transpose", []attr{aInts("perm", make([]int64, r))}, one)
 			cw.emit("Transpose", []attr{aInts("perm", perms[r-1][0])}, one)
 		}
+		// perms that are not permutations of 0..r-1: one entry out of range (r, r+1, -1) at every
+		// position, a repeated entry, a too long list -- on every shape, the unit-extent ones included
+		for pos := 0; pos < r; pos++ {
+			for _, bad := range []int64{int64(r), int64(r + 1), -1} {
+				p := append([]int64{}, perms[r][len(perms[r])-1]...)
+				p[pos] = bad
+				cw.emit("Transpose", []attr{aInts("perm", p)}, one)
+			}
+		}
+		if r >= 2 {
+			p := append([]int64{}, perms[r][0]...)
+			p[r-1] = p[0]
+			cw.emit("Transpose", []attr{aInts("perm", p)}, one)
+		}
+		cw.emit("Transpose", []attr{aInts("perm", append(append([]int64{}, perms[r][0]...), int64(r)))}, one)
 		cw.emit("Transpose", nil, one)
 		for a := -r - 1; a <= r; a++ {
 			a64 := int64(a)
